@@ -26,13 +26,17 @@ TARGETS = {
     "x64-att": (gtirb.Module.ISA.X64, "att"),
     "ia32": (gtirb.Module.ISA.IA32, "att"),
     "arm64": (gtirb.Module.ISA.ARM64, "att"),
+    "mips32": (gtirb.Module.ISA.MIPS32, "att"),  # only in the temporary-prefix case of C13
 }
 
 TEXT = {
-    "o": {"x64-intel": "mov eax, 1", "x64-att": "movl $1, %eax", "ia32": "movl $1, %eax", "arm64": "add x0, x0, #1"},
-    "o2": {"x64-intel": "xor ebx, ebx", "x64-att": "xorl %ebx, %ebx", "ia32": "xorl %ebx, %ebx", "arm64": "mov x2, x3"},
+    "o": {"x64-intel": "mov eax, 1", "x64-att": "movl $1, %eax", "ia32": "movl $1, %eax", "arm64": "add x0, x0, #1",
+          "mips32": "addiu $t0, $t0, 1"},
+    "o2": {"x64-intel": "xor ebx, ebx", "x64-att": "xorl %ebx, %ebx", "ia32": "xorl %ebx, %ebx", "arm64": "mov x2, x3",
+           "mips32": "move $t2, $t3"},
     "jmp": {"x64-intel": "jmp {0}", "x64-att": "jmp {0}", "ia32": "jmp {0}", "arm64": "b {0}"},
-    "jcc": {"x64-intel": "jne {0}", "x64-att": "jne {0}", "ia32": "jne {0}", "arm64": "b.ne {0}"},
+    "jcc": {"x64-intel": "jne {0}", "x64-att": "jne {0}", "ia32": "jne {0}", "arm64": "b.ne {0}",
+            "mips32": "bne $t0, $t1, {0}"},
     "call": {"x64-intel": "call {0}", "x64-att": "call {0}", "ia32": "call {0}", "arm64": "bl {0}"},
     "ret": {"x64-intel": "ret", "x64-att": "ret", "ia32": "ret", "arm64": "ret"},
     "ijmp": {"x64-intel": "jmp rax", "x64-att": "jmp *%rax", "ia32": "jmp *%eax", "arm64": "br x1"},
@@ -246,10 +250,11 @@ def model(prog, chunk_lens, executable, trivially_unreachable, module_symbols):
 
 
 # ---------------------------------------------------------------------------
-def build_module(target, pie):
+def build_module(target, pie, fmt="elf"):
     isa, syntax = TARGETS[target]
     ir = gtirb.IR()
-    m = gtirb.Module(name="m", isa=isa, file_format=gtirb.Module.FileFormat.ELF, ir=ir, byte_order=gtirb.Module.ByteOrder.Little)
+    m = gtirb.Module(name="m", isa=isa, file_format=gtirb.Module.FileFormat.ELF if fmt == "elf" else gtirb.Module.FileFormat.PE,
+                     ir=ir, byte_order=gtirb.Module.ByteOrder.Big if target == "mips32" else gtirb.Module.ByteOrder.Little)
     from gtirb_rewriting import _auxdata
     _auxdata.binary_type.set(m, ["DYN"] if pie else ["EXEC"])
     s = gtirb.Section(name=".text", module=m, flags={gtirb.Section.Flag.Executable, gtirb.Section.Flag.Readable,
@@ -420,11 +425,11 @@ def _disassemble_check(eng, target, prog, rec, final):
 # ---------------------------------------------------------------------------
 # C13: symbol discipline
 # ---------------------------------------------------------------------------
-def h_symbols(eng, target, case):
+def h_symbols(eng, target, case, fmt="elf"):
     from gtirb_rewriting.assembler import Assembler, MultipleDefinitionsError, UndefSymbolError
     from gtirb_rewriting.assembly import X86Syntax
 
-    m, msyms = build_module(target, True)
+    m, msyms = build_module(target, True, fmt)
     isa, syntax = TARGETS[target]
     xs = X86Syntax.INTEL if syntax == "intel" else X86Syntax.ATT
     msyms[".L_mod"] = gtirb.Symbol(".L_mod", payload=msyms["func"].referent, module=m)
@@ -493,6 +498,52 @@ def h_symbols(eng, target, case):
         e2 = list(r2.text_section.symbolic_expressions.values())
         eng.check(len(e2) == 1 and e2[0].symbol in r2.symbols, "C13 the second copy's branch captured another copy's label")
         eng.check(not (set(n1) & set(n2)), "C13 two copies produced symbols with one name")
+    elif case == "context_temp_label":
+        # the route patches take: InsertionContext.temporary_label() builds the name from the ABI's temporary prefix, and the
+        # assembler must recognise exactly that prefix as temporary for the module's ISA and file format
+        from gtirb_rewriting import InsertionContext
+        ictx = InsertionContext(m, None, msyms["func"].referent, 0)
+        name = ictx.temporary_label("skip")
+        prog = [tok("o"), tok("jcc", name), tok("o2"), tok("label", name), tok("o")]
+        r1 = run_prog(prog, "_1")
+        for s in r1.symbols:
+            m.symbols.add(s)
+        r2 = run_prog(prog, "_2")
+        n1 = sorted(s.name for s in r1.symbols)
+        n2 = sorted(s.name for s in r2.symbols)
+        eng.check(n1 == [name + "_1"] and n2 == [name + "_2"],
+                  "C13 a label from InsertionContext.temporary_label() did not receive the caller's suffix: %s / %s" % (n1, n2))
+        e2 = list(r2.text_section.symbolic_expressions.values())
+        eng.check(len(e2) == 1 and e2[0].symbol in r2.symbols, "C13 the second copy's branch captured another copy's label")
+    elif case == "reuse_after_finalize":
+        # an Assembler may be used again after finalize(): the second round starts from a clean state, i.e. it behaves like a
+        # fresh Assembler, and the result already handed out is not touched
+        prog = [tok("label", ".Lloop"), tok("o"), tok("jcc", ".Lloop"), tok("label", "mine"), tok("call", "func"), tok("o2")]
+        a = Assembler(m, temp_symbol_suffix="_1", allow_undef_symbols=False)
+        with Recorder(eng):
+            a.assemble(render(prog, target), xs)
+            r1 = a.finalize()
+        before = _summary(eng, r1) if not eng.sym else None
+        nsym1 = sorted(s.name for s in r1.symbols)
+        with Recorder(eng):
+            a.assemble(render(prog, target), xs)
+            r2 = a.finalize()
+        fresh = run_prog(prog, "_1")
+        eng.check(sorted(s.name for s in r2.symbols) == nsym1 and sorted(s.name for s in fresh.symbols) == nsym1,
+                  "C13 second use of an Assembler after finalize(): symbols %s, a fresh Assembler gives %s" % (
+                      sorted(s.name for s in r2.symbols), sorted(s.name for s in fresh.symbols)))
+        eng.check(_summary(eng, r2) == _summary(eng, fresh) if not eng.sym else _summary_equal(eng, r2, fresh),
+                  "C13 second use of an Assembler after finalize() differs from a fresh Assembler")
+        eng.check(sorted(s.name for s in r1.symbols) == nsym1 and (eng.sym or _summary(eng, r1) == before),
+                  "C13 a result already returned by finalize() was changed by later use of the Assembler")
+        eng.check(not any(s2 in r2.symbols for s2 in r1.symbols), "C13 the second result shares symbol objects with the first")
+        try:
+            with Recorder(eng):
+                a.assemble(render([tok("o"), tok("jmp", "mine")], target), xs)
+                a.finalize()
+            eng.fail("C13 a name defined only in an earlier, finalized round was accepted as known")
+        except UndefSymbolError:
+            eng.ok()
     elif case == "chunked":
         prog = [tok("label", "a"), tok("o"), tok("jcc", "a"), tok("o2"), tok("label", ".Lb"), tok("call", "func"), tok("jmp", ".Lb"), tok("byte")]
         whole = run_prog(prog)
@@ -590,7 +641,7 @@ def make_check_C12(tier):
     chk = run.Check("C12", tier)
     chk.install_shims = install
     chk.classify_exception = classify
-    targets = ["x64-intel", "x64-att", "arm64"] if tier == "quick" else list(TARGETS)
+    targets = ["x64-intel", "x64-att", "arm64"] if tier == "quick" else [t for t in TARGETS if t != "mips32"]
     if tier == "thorough":
         for target in ("x64-intel", "arm64"):
             for pname, prog in generated_programs().items():
@@ -633,10 +684,11 @@ def make_check_C13(tier):
     chk = run.Check("C13", tier)
     chk.install_shims = install
     chk.classify_exception = classify
-    for target in (["x64-intel", "arm64"] if tier == "quick" else list(TARGETS)):
+    for target in (["x64-intel", "arm64"] if tier == "quick" else [t for t in TARGETS if t != "mips32"]):
         for case in ("undef_refused", "undef_allowed", "undef_allowed_temp", "module_binds", "redefine_global", "redefine_temp", "redefine_own", "redefine_set",
                      "temp_suffix", "chunked"):
             chk.add("symbols/%s/%s" % (target, case), h_symbols, params=dict(target=target, case=case), timeout=900)
+        chk.add("symbols/%s/reuse_after_finalize" % target, h_symbols, params=dict(target=target, case="reuse_after_finalize"), timeout=900)
         for pname in ("jcc-back", "temp", "data-after-ret", "calls", "ascii-nul"):
             prog = PROGRAMS[pname]
             for cut in range(1, len(prog)):
@@ -646,7 +698,12 @@ def make_check_C13(tier):
                     continue
                 chk.add("chunks/%s/%s/cut%d" % (target, pname, cut), h_assemble,
                         params=dict(target=target, prog=prog, pie=True, trivially_unreachable=False, split_at=cut), timeout=900)
+    for target, fmt in (("x64-intel", "elf"), ("x64-att", "pe"), ("ia32", "pe"), ("arm64", "elf"), ("mips32", "elf")):
+        chk.add("symbols/%s-%s/context_temp_label" % (target, fmt), h_symbols,
+                params=dict(target=target, case="context_temp_label", fmt=fmt), timeout=900)
     chk.bounds = {
+        "temporary prefix": "InsertionContext.temporary_label() names on x86-64 ELF, x86-64 PE, IA32 PE, ARM64 ELF, MIPS32 ELF, two copies each",
+        "assembler reuse": "assemble/finalize twice on one Assembler object compared with a fresh Assembler",
         "cases": "unknown name refused / allowed (one proxy-backed symbol per name); module names bind to the module's symbol objects "
                  "(code, data, proxy, a temporary-looking module name); redefinition of a module name, of a temporary-looking module "
                  "name, of an own label and via .set; temporary labels and temporary assigned symbols receive the suffix, two copies "
